@@ -111,6 +111,15 @@ class SelWorld:
         if len(relays) > 1:
             self.S.add_connection_hints([h for h in hr[0] if h["type"] == "relay-v1"])
             self.R.add_connection_hints([h for h in hs[0] if h["type"] == "relay-v1"])
+        # a relay that is the outsider: the party was given a hint for it (with the peer's hints); it answers as scripted
+        self.evil_port = {}
+        for i, l in enumerate(sorted(l for l, k in kinds.items() if k.startswith("evilrelay"))):
+            port = RELAY_PORT + 100 + i
+            self.evil_port[l] = port
+            reactor.listenTCP(port, protocol.Factory.forProtocol(Stranger))
+            (self.S if kinds[l].endswith("S") else self.R).add_connection_hints(
+                [{"type": "relay-v1", "hints": [{"type": "direct-tcp-v1", "hostname": "10.9.9.%d" % (66 + i), "port": port, "priority": 0.0}]}])
+        self.out_end = {}
         if "s2r" in kinds.values():
             self.S.add_connection_hints([h for h in hr[0] if h["type"] == "direct-tcp-v1"])
         if "r2s" in kinds.values():
@@ -206,6 +215,13 @@ class SelWorld:
             ls = reactor.complete(self._attempts_to(port, self.S)[0])
             lr = reactor.complete(self._attempts_to(port, self.R)[0])
             self.links[l] = {"S": (ls, 0), "R": (lr, 0)}
+        elif k.startswith("evilrelay"):
+            port, owner = self.evil_port[l], (self.S if k.endswith("S") else self.R)
+            self._run_timers_until(lambda: len(self._attempts_to(port, owner)) > 0)
+            link = reactor.complete(self._attempts_to(port, owner)[0])
+            self.strangers[l] = link
+            self.out_end[l] = 1
+            self.links[l] = {("S" if k.endswith("S") else "R"): (link, 0)}
         else:
             port = self.portS if k.endswith("S") else self.portR
             c = reactor.connectTCP("127.0.0.1", port, StrangerFactory())
@@ -300,7 +316,7 @@ class SelWorld:
     def _OutsiderSend(self, l, y):
         u = self.scripts[l][self.script_pos[l]]
         self.script_pos[l] += 1
-        self.strangers[l].ends[0].write(UNIT_BYTES[u])
+        self.strangers[l].ends[self.out_end.get(l, 0)].write(UNIT_BYTES[u])
 
     def _PeerGone(self, l, p):
         link, i = self.end(l, p)
@@ -408,6 +424,11 @@ CONFIGS = {
     # without a listener on one side (no_listen=True): that party can only dial
     "sender_no_listen": ({"a": "s2r", "c": "relay", "y": "wrongkeyR"}, {"y": ["SHx", "go"], "_no_listen": ("S",)}),
     "receiver_no_listen": ({"b": "r2s", "c": "relay", "x": "wrongkeyS"}, {"x": ["RHx"], "_no_listen": ("R",)}),
+    # a relay that is not honest: after its "ok" it sends what a party without the key can send
+    "evil_relay": ({"a": "s2r", "e": "evilrelayS", "f": "evilrelayR"}, {"e": ["ok", "RHx"], "f": ["ok", "SHx", "go"]}),
+    "evil_relay2": ({"b": "r2s", "e": "evilrelayS", "f": "evilrelayR"}, {"e": ["ok", "junk"], "f": ["junk"]}),
+    # a sender of another implementation (a key holder) that takes the protocol's losing branch towards R
+    "alt_sender": ({"a": "s2r", "y": "altsenderR"}, {"y": ["SH", "nevermind"]}),
 }
 
 INVARIANTS = ["AtMostOneGo", "GoOnlyAfterRH", "ReceiverNeedsGo", "SameLink", "KeyHoldersOnly", "ResultIsRecords", "OthersClosed",
@@ -430,6 +451,9 @@ GOALS = {
     # the peer's handshake in one read
     "joined_go_then_both": "last[1] = \"DeliverJoined\" /\\ last[3] = \"R\" /\\ result.R \\in Links /\\ result.S = result.R",
     "joined_at_S": "last[1] = \"DeliverJoined\" /\\ last[3] = \"S\" /\\ result.S \\in Links",
+    # units coalesced on a link whose far end is an outsider
+    "joined_from_outsider_S": "last[1] = \"DeliverJoined\" /\\ last[3] = \"S\" /\\ ~Honest(last[2])",
+    "joined_from_outsider_R": "last[1] = \"DeliverJoined\" /\\ last[3] = \"R\" /\\ ~Honest(last[2])",
     # both failed
     "both_failed": "result.S = \"failed\" /\\ result.R = \"failed\"",
     # one has a link, the other failed
@@ -514,10 +538,31 @@ def run(prop, tier):
                 behaviours.append(("tlc-sim", tr))
             # coverage goals: shortest behaviours reaching situations random simulation seldom does
             goals = dict(GOALS)
+            # (a goal the configuration cannot reach costs an exhaustive run to learn just that: asked only where it can apply)
+            ks = set(kinds.values())
+            two_to_S = bool(ks & {"relay"})
+            two_to_R = bool(ks & {"relay", "evilrelayR", "altsenderR", "wrongkeyR", "s2r", "r2s"})
+            if name != "two_direct":
+                goals.pop("nevermind_sent")
+            if "r2s" not in ks:
+                goals.pop("early_winner_then_start")
+            if "s2r" not in ks:
+                goals.pop("early_rwin_then_start")
+            if not two_to_S:
+                goals.pop("joined_at_S")
+            if not (ks & {"evilrelayS"}):
+                goals.pop("joined_from_outsider_S")
+            if not (ks & {"altsenderR"}) and name != "evil_relay":
+                goals.pop("joined_from_outsider_R")
+            if not (ks & {"s2r", "r2s", "relay"}):
+                for g in ("winner_lost", "joined_go_then_both", "split_outcome"):
+                    goals.pop(g)
             for l, k in kinds.items():
                 if k in ("s2r", "r2s", "relay"):
                     goals["both_on_" + l] = 'result.S = "%s" /\\ result.R = "%s"' % (l, l)
+                if k == "r2s":
                     goals["early_winner_" + l] = '~started.S /\\ winner = "%s"' % l
+                if k == "s2r":
                     goals["early_rwin_" + l] = '~started.R /\\ rwin = "%s"' % l
             wit, unreached = common.witnesses(wd, "Transit", consts_for(kinds, scripts, cut=(name != "three"), partial=True), goals,
                                               "MC_C07_goal_" + name)
